@@ -16,10 +16,10 @@ func c01Monitors(e *penv, conns []*symConn) {
 	for _, c := range conns {
 		if c != nil && len(c.writes) > 0 {
 			sentOpen++
-			verifAssert("first-write-is-the-open", verifAt(c.writes[0], 18) == openMessageType)
+			verifAssert("first-write-is-the-open", verifAt(c.writes[0], 18) == verifMsgOpen)
 			nOpenFrames := 0
 			for _, w := range c.writes {
-				if verifAt(w, 18) == openMessageType {
+				if verifAt(w, 18) == verifMsgOpen {
 					nOpenFrames++
 				}
 			}
@@ -73,13 +73,13 @@ func Verif_C01_event_mix_two_connections() {
 		}
 		switch verifChoose("event", ne) {
 		case 0:
-			c.send(openMessageType, e.openBody())
+			c.send(verifMsgOpen, e.openBody())
 		case 1:
-			c.send(keepAliveMessageType, nil)
+			c.send(verifMsgKeepalive, nil)
 		case 2:
 			c.remoteClose(1)
 		case 3:
-			c.send(updateMessageType, []byte{0, 0, 0, 0})
+			c.send(verifMsgUpdate, []byte{0, 0, 0, 0})
 		}
 	}
 	verifQuiesce()
@@ -130,13 +130,13 @@ func Verif_C01_restart_alternation() {
 	case 0:
 		c1.remoteClose(1)
 	case 1:
-		c1.send(notificationMessageType, []byte{NOTIF_CODE_CEASE, 0})
+		c1.send(verifMsgNotification, []byte{NOTIF_CODE_CEASE, 0})
 	case 2:
 		verifFireTimer(e.p.fsms[out].holdTimer)
 	case 3:
 		e.pl.handlerNotifAt = 0
 		e.pl.handlerNotif = &Notification{Code: NOTIF_CODE_CEASE}
-		c1.send(updateMessageType, []byte{0, 0, 0, 0})
+		c1.send(verifMsgUpdate, []byte{0, 0, 0, 0})
 	}
 	verifQuiesce()
 	verifAssert("first-closed", e.pl.nEstab == 1 && e.pl.nClose == 1)
